@@ -9,7 +9,7 @@ for line in open(os.path.join(HERE, 'properties.jsonl')):
     props[p['id']] = p
 
 MODEL_NOTE = ('Trusted base: the reference acceptor vf/model.py (my reading of the property statements), the instrumented '
-              'runtime rt/*.hpp, clang++-14. Machine definitions are sampled (13 curated machines, 7 back-end configurations), '
+              'runtime rt/*.hpp, clang++-14. Machine definitions are sampled (18 curated machines plus seeded generated machines from vf/gen_spec.py, 7 back-end configurations), '
               'inputs/guard valuations/nested submissions/failpoints are explored at random from VERIF_SEED. Held on the '
               'executions observed, nothing more.')
 
